@@ -13,8 +13,9 @@ explorer picks; time may be advanced early.
 Direct oracle (real code only, from the statement): seqs distinct; every frame received by one thread and
 dispatched exactly once; every call returns the peer's answer to that very request (or a timeout not before
 its deadline), each result published at most once; no state in which no thread can run while data is unread.
-A caller that stays blocked after its reply HAS been processed is C14's subject (known finding F3) and is
-counted, not flagged, here.
+After the peer closes the stream every thread inside a call must terminate (EOFError): none stays parked in
+poll() or on the condition.  A caller that stays blocked after its reply HAS been processed (and the stream is
+still open) is C14's subject (known finding F3) and is counted, not flagged, here.
 """
 import hashlib
 import time
@@ -38,8 +39,10 @@ TRUSTED = [
     "the statements mapped to model steps, virtual clock behind rpyc.lib.time and rpyc.utils.helpers.time",
 ]
 ASSUMPTIONS = [
-    "the peer sends only replies/exceptions to outstanding requests, one per request (requests from the peer, i.e. "
-    "nested dispatch inside serve(), are C08/C01's subject)",
+    "the peer sends only replies/exceptions to outstanding requests, one per request, and may close the stream at any "
+    "point (requests from the peer, i.e. nested dispatch inside serve(), are C08/C01's subject)",
+    "Connection.close() is one atomic step (marks closed, spends one seq on HANDLE_CLOSE, closes the channel, clears the "
+    "callbacks table); transport errors other than end-of-stream are C11's subject",
     "serve(wait_for_lock=False) (Connection.poll) is not part of the model: AsyncResult.wait and BgServingThread use "
     "wait_for_lock=True",
     "BgServingThread's sleep is an abstract always-enabled step in the model (any sleep duration)",
@@ -64,7 +67,25 @@ CONFIGS = {
     "2c+bg-tick-exc": dict(clients=[[2], [3, 2]], bg=True, early_tick=True, exc=[0]),
     "2c-none": dict(clients=[[None], [4]], bg=False),
     "3c-none+bg": dict(clients=[[None], [3], [None]], bg=True),
+    # the peer may close the stream at any point ("E"); schedules in which it never does are included
+    "2c-eof": dict(clients=[[None], [6]], bg=False, eof=True),
+    "1c+bg-eof": dict(clients=[[5]], bg=True, eof=True),
+    "2c+bg-eof-tick": dict(clients=[[4, 3], [None]], bg=True, eof=True, early_tick=True),
+    "3c-eof": dict(clients=[[3], [None], [5]], bg=False, eof=True, exc=[1]),
 }
+
+# directed end-of-stream schedules: one thread in poll(), the other parked on the condition (no expiry), then EOF;
+# EOF before anybody serves; EOF while a reply is unread; EOF between a caller's send and its wait
+EOF_SCRIPTS = [
+    ("2c-eof", [("block", 1), ("block", 2), ("eof",)]),
+    ("2c-eof", [("block", 2), ("block", 1), ("eof",)]),
+    ("2c-eof", [("eof",)]),
+    ("2c-eof", [("run", 1, "c2"), ("run", 2, "c3"), ("peer", 1), ("eof",)]),
+    ("2c-eof", [("run", 1, "c2"), ("eof",), ("block", 1)]),
+    ("1c+bg-eof", [("block", 2), ("run", 1, "s2"), ("eof",)]),
+    ("1c+bg-eof", [("run", 1, "s3"), ("block", 2), ("eof",)]),
+    ("3c-eof", [("block", 1), ("block", 2), ("block", 3), ("eof",)]),
+]
 
 
 def trace_key(run):
@@ -75,7 +96,8 @@ def nontrivial(run):
     """a schedule is non-trivial if threads really met: a failed try-lock, a condition wait, a reply received by a
     thread other than its requester, a timed-out poll, a dropped or late reply"""
     tr = run.sched.trace
-    if any(":s2:fail" in t or ":zz:" in t or t.endswith(":p0:none") or ":nocb" in t or ":d2:expired" in t for t in tr):
+    if any(":s2:fail" in t or ":zz:" in t or t.endswith(":p0:none") or ":nocb" in t or ":d2:expired" in t or t == "eof"
+           for t in tr):
         return True
     owner = dict((q, t) for (t, q) in run.issued)
     sent = dict((fid, seq) for (fid, seq, _e, _v) in run.frames_sent)
@@ -106,10 +128,14 @@ class Collector:
             c.count("outcome:" + r.outcome)
             for tok in r.sched.trace:
                 p = tok.split(":")
-                if p[0] == "run" and p[2] in ("s2", "zz", "d2", "w0", "w9", "d0") or p[0] == "chk":
+                if p[0] == "eof":
+                    c.count("peer closed the stream")
+                elif p[0] == "run" and p[2] in ("s2", "zz", "d2", "w0", "w9", "d0", "x0") or p[0] == "chk":
                     c.count("branch:" + ":".join(p[2:4]) if p[0] == "run" else "observed:blocked-" + ("ready" if p[2] == "R" else "notready"))
                 elif p[0] == "run" and p[2] == "p0":
-                    c.count("branch:p0:" + ("none" if p[3] == "none" else "frame"))
+                    c.count("branch:p0:" + (p[3] if p[3] in ("none", "eof") else "frame"))
+                elif p[0] == "run" and p[2] == "c2" and p[-1] == "closed":
+                    c.count("branch:c2:send-on-closed-connection")
                 elif p[0] == "run" and p[2] == "d1":
                     c.count("branch:d1:" + p[4])
             for res in r.results.values():
@@ -153,8 +179,16 @@ def correspondence(ctx):
     try:
         # 1. exhaustive within a preemption bound
         # (configuration, preemption bound, cap on schedules, share of the remaining time)
-        plan = ctx.budget([("2c", 1, 900, 0.3), ("1c+bg", 1, 300, 0.3)],
-                          [("1c+bg", 2, 20000, 0.1), ("2c", 2, 200000, 0.5), ("2c+bg", 1, 60000, 0.4), ("3c", 1, 60000, 0.5)])
+        # 0. directed end-of-stream schedules
+        col = Collector(ctx, c, "eof/directed")
+        for name, script in EOF_SCRIPTS:
+            ch = ss.DirectedChooser(script)
+            col(ss.run_case(dict(CONFIGS[name]), ch, env))
+        col.flush()
+        # the -eof configurations contain every schedule of the plain ones (the peer need not close the stream)
+        plan = ctx.budget([("1c+bg-eof", 1, 500, 0.2), ("2c-eof", 1, 3000, 0.62)],
+                          [("1c+bg-eof", 2, 30000, 0.12), ("2c-eof", 1, 10000, 0.2), ("2c", 2, 200000, 0.45),
+                           ("2c+bg", 1, 60000, 0.4), ("2c-eof", 2, 100000, 0.5), ("3c", 1, 60000, 0.5)])
         for name, bound, cap, frac in plan:
             col = Collector(ctx, c, name + "/dfs%d" % bound)
             share = time.time() + (t_end - time.time()) * frac
@@ -164,7 +198,7 @@ def correspondence(ctx):
             ctx.log("dfs %s bound %d: %d schedules, complete=%s" % (name, bound, n, complete))
         # 2. seeded random schedules (preemption bound 2 in the quick tier, 3 in the thorough tier, plus unbounded walks)
         names = sorted(CONFIGS)
-        n_rand = ctx.budget(2300, 40000)
+        n_rand = ctx.budget(1500, 40000)
         col = None
         k = 0
         while k < n_rand and time.time() < t_end:
@@ -224,6 +258,9 @@ BOUNDARY = [
     dict(clients=[[3], [3]], bg=True, early_tick=True),
     dict(clients=[[None], [None]], bg=False, dup=[0]),      # the peer repeats a reply: the callback must not fire twice
     dict(clients=[[4], [4]], bg=True, dup=[1]),
+    dict(clients=[[None], [None]], bg=False, eof=True),
+    dict(clients=[[None], [None], [None]], bg=False, eof=True),
+    dict(clients=[[None]], bg=True, eof=True),
 ]
 
 
@@ -254,7 +291,17 @@ def oracle_search(ctx, corr, broken):
             f = examine(cs["case"], cs.get("choices", []), False)
             if f:
                 return f
-    # 2. boundary corpus and 3. fresh schedules, every line a scheduling point (park_all)
+    # 2. the directed end-of-stream schedules
+    for name, script in EOF_SCRIPTS:
+        try:
+            run = ss.run_case(dict(CONFIGS[name]), ss.DirectedChooser(script), env)
+        except ss.HarnessError:
+            continue
+        if [v for v in ss.c13_violations(run) if v[0] not in known]:
+            f = examine(dict(CONFIGS[name]), [c for (c, _o, _c) in run.choices], False)
+            if f:
+                return f
+    # 3. boundary corpus and fresh schedules, every line a scheduling point (park_all)
     rng = Rng(ctx.seed).fork("c13-search")
     cases = BOUNDARY + [dict(v) for v in CONFIGS.values()]
     k = 0
